@@ -4,6 +4,7 @@
 -/
 import PotasscoVerif.Drv.BufferedStream
 import PotasscoVerif.Drv.RuleBuilder
+import PotasscoVerif.Drv.Aspif
 open PotasscoVerif.Drv
 
 def dispatch (line : String) : String :=
@@ -12,6 +13,8 @@ def dispatch (line : String) : String :=
   | "as" :: args => runAS args
   | "rb" :: args => runRB args
   | "rs" :: args => runRS args
+  | "aw" :: args => runAW args
+  | "ar" :: args => runAR args
   | _ => "bad-component"
 
 partial def loop (h : IO.FS.Stream) (out : IO.FS.Stream) : IO Unit := do
